@@ -197,6 +197,13 @@ func vrServer(r *rand.Rand, id int) {
 				return
 			}
 			c.SetReadTimeout(200 * time.Millisecond)
+			if i%3 == 2 {
+				// connect and leave without a request: the peer close meets a connection whose only task so far was OnConnect
+				// (what orders OnConnect's result - the connection's context - before OnDisconnect is the `connecting` key alone)
+				time.Sleep(delays[i] / 5)
+				c.Close()
+				return
+			}
 			for k := 0; k < 3; k++ {
 				c.Writer().WriteBinary([]byte("hello netpoll race"))
 				if c.Writer().Flush() != nil {
